@@ -68,6 +68,7 @@ type seqRun struct {
 	opCount      int
 	imgCount     int
 	movedDirs    []uint64 // directories moved to another parent by RENAME (known finding: stale "..")
+	c10on        bool     // -c10: scenarios may ask for the coherence oracle at a point of their own
 	recovered    bool     // this server was started on a crash image: half-freed objects may exist
 	crossRenames int      // successful renames between two different directories
 	lastStatus   nfstypes.Nfsstat3
@@ -1211,6 +1212,7 @@ func cmdSeq(fs *flag.FlagSet, args []string) {
 			emit("# scenario %s", sc.name)
 			s.c09 = *c09
 			s.locks = *locks
+			s.c10on = *c10 > 0
 			s.imgOut, s.fsckEvery = imgOut, *fsckN
 			takeSeqEvents()
 			sc.run(s)
